@@ -70,10 +70,10 @@ openf('C03', 'kf_replay_exceeds_smaller_recvmax', "after a reconnect with a smal
 openf('C04', 'kf_recvmax_dup_qos2', 'a retransmitted (DUP) QoS 2 PUBLISH arriving while the Receive Maximum quota is used up is answered by DISCONNECT 0x93 although it is no new message (readLoop counts packets, not identifiers)', 'corpus/C04/kf.sx (kf_dup_at_full_quota)')
 openf('C12', 'kf_redelivery_after_expiry', 'an in-flight QoS>0 message is retransmitted after a reconnect although its Message Expiry Interval has passed (ReadInflight does not check expiry)', 'corpus/C12/hand.sx (h_redeliv_expired)')
 openf('C12', 'kf_expiry_zero_treated_as_absent', 'a PUBLISH with Message Expiry Interval 0 is kept and delivered like one without the property (0 is the internal "no expiry" value)', 'corpus/C12/hand.sx (h_zero)')
-openf('C10', 'kf_redis_queue_lrange_minus1', 'redis queue: Read with no packet ids at cursor 0 issues LRANGE 0 -1 and walks the whole list (QoS 0 messages handed out and removed, index-out-of-range panic on the first QoS>0 message); the ReadInflight(0) half of this finding was repaired in 309d247', 'corpus/C10/redis_open.sx')
+# repaired: openf('C10', 'kf_redis_queue_lrange_minus1', 'redis queue: Read with n...
 fixed('C10', '309d247', 'redis queue ReadInflight(0): at cursor 0 it issued LRANGE 0 -1 and returned the whole list; at any other cursor the (necessarily empty) reply was taken for "no in-flight entries left", so the next Read handed out an in-flight entry still awaiting redelivery as a new message under a new packet id (found by the thorough tier: 8 unclassified deviations in 40 000 cases)', 'corpus/C10/redis_fixed.sx (fx_readinflight0, fx_readinflight0_cur0)')
-openf('C10', 'kf_redis_queue_stale_cache', 'redis queue: Remove of an id whose entry Add already sacrificed moves counters and cursor although nothing is removed', 'corpus/C10/redis_open.sx')
-openf('C10', 'kf_redis_queue_replace_cursor0', 'redis queue: Replace while the read cursor is 0 inspects element 0 instead of the in-flight entry', 'corpus/C10/redis_open.sx')
+# repaired: openf('C10', 'kf_redis_queue_stale_cache', 'redis queue: Remove of an ...
+# repaired: openf('C10', 'kf_redis_queue_replace_cursor0', 'redis queue: Replace w...
 openf('C16', 'kf_hello_reply_lost', 'federation: a Hello whose reply is lost while the peer created a fresh session leaves the sender with its old queue and the peer with an empty view (no full resynchronisation); a repair was tried and reverted because the pinned TestFederation_Hello asserts the current reply', 'corpus/C16/kf.sx')
 openf('C16', 'kf_event_not_utf8', 'federation: an event that cannot be marshalled (binary Correlation Data / non UTF-8 topic in a proto3 string field) fails Send, the stream is re-established and the same event is retried for ever, blocking the queue', 'corpus/C16/kf.sx')
 openf('C17', 'kf_shared_span', 'federation: a share group spanning nodes is served twice (a peer holding a member gets the message for another reason while the group turn went elsewhere) or not at all (another group remote turn makes the origin skip its own members): the drop / option rewrite is per message, not per group', 'corpus/C17/kf.sx')
@@ -108,6 +108,9 @@ fixed('C06', '0ca990c', 'codec: variable byte integers that are longer than nece
 fixed('C06', '5f20c9d', 'codec: ValidTopicName accepted the empty string (was kf_name_empty)', 'corpus/C06/fixed.sx (fx_name_empty, fx_name_empty_s)')
 fixed('C06', '264c0c1', 'codec: ValidTopicName, ValidTopicFilter and ValidV5Topic accepted the null character (was kf_topic_nul)', 'corpus/C06/fixed.sx (fx_topic_nul, fx_topic_nul_share)')
 fixed('C06', 'e25d33d', 'codec: every Unpack allocated the declared Remaining Length before any of those bytes had arrived (was kf_alloc_upfront)', 'corpus/C06/fixed.sx (fx_alloc_upfront, fx_alloc_upfront_max)')
+fixed('C10', '7cedd8c', 'redis queue Read with no packet ids at cursor 0 issued LRANGE 0 -1 and walked the whole list (QoS 0 messages handed out and removed, index-out-of-range panic on the first QoS>0 message); Read now returns at once when no ids are supplied (was kf_redis_queue_lrange_minus1)', 'corpus/C10/redis_fixed.sx (fx_read_noids)')
+fixed('C10', '69a1f7d', 'redis queue Add sacrificed an expired in-flight entry but left it in readCache: a later Remove of that id removed nothing yet reported (queue -1)(inflight -1) and decremented len and current; Add now forgets the dropped entry in readCache (was kf_redis_queue_stale_cache)', 'corpus/C10/redis_fixed.sx (fx_stale_cache)')
+fixed('C10', '7e1e0db', 'redis queue Replace with the read cursor at 0 (after Init(clean=false), before the replay) issued LRANGE 0 0 and overwrote the first entry, still awaiting redelivery; Replace now returns false when nothing is in front of the cursor (was kf_redis_queue_replace_cursor0)', 'corpus/C10/redis_fixed.sx (fx_replace_cursor0)')
 C06 = {
     'kf_auth_v3': 'AUTH accepted on a 3.1/3.1.1 connection (4:f000); pinned by pkg/packets/auth_test.go TestReadWriteAuthPacket, which reads an AUTH packet through a default (3.1.1) Reader',
     'kf_pubrel_v3': 'a 3.1.1 PUBREL longer than 2 bytes is parsed in the MQTT 5 form (4:6203000100): Pubrel carries no protocol version; pinned by pubrel_test.go TestReadWritePubrelPacket',
